@@ -278,6 +278,10 @@ def make_spec(rng, noline, c99=False):
             S.add("\tif (strlen(\"}\") != 1 || '}' != 125 || '\\'' != 39) return 99;")
             S.add("\t}")
         S.blanks()
+        if R.chance(25):
+            # a comment line of its own between two rules
+            S.add("    /* between rules: %s */" % comment_text(S.pick("action_braced")[1]))
+            S.between = getattr(S, "between", 0) + 1
     S.add("[ \\t\\n]+\t;")
     S.lines.append("<<EOF>>\t{")
     S.add(S.stmt_tracer("eof_action"))
@@ -379,6 +383,7 @@ def worker(args):
     if noline:
         feat("noline_specs")
     feat("backend:c99" if c99 else "backend:default")
+    feat("comment_lines_between_rules", getattr(S, "between", 0))
     gen_bytes = util.read(out, True)
     src_lines = text.encode("latin1").split(b"\n")
     for region, a, b_ in S.spans:
@@ -454,6 +459,7 @@ def run(pid, tier):
     chk.require("linedirs_outfile", 20)
     chk.require("noline_specs", 2)
     chk.require("backend:c99", 5)
+    chk.require("comment_lines_between_rules", 10)
     chk.require("verbatim_blocks", 50)
     chk.require("verbatim_blocks_with_blank_runs", 5)
     return chk
